@@ -1,5 +1,6 @@
 import MosnVerif.Lemmas.Subset
 import MosnVerif.Lemmas.SubsetRequest
+import MosnVerif.Lemmas.SubsetSlice
 /-!
 # C15 — subset load balancing honours metadata and its fallback policy (property theorems only)
 
@@ -7,13 +8,15 @@ Objects (see `Model/Subset.lean`): `hosts : List Host` with metadata association
 configured selectors (any order, repeated keys, repeated or empty selectors), `policy : Nat` the configured
 `fall_back_policy` byte, `dflt : Path` the default subset, `c : Path` the request's match criteria, sorted by key as
 the router builds them (`strictSorted`).  `lbF` is the balancer of the filtering builder (`NewSubsetLoadBalancer`),
-`lbP shuf` the one of the pre-index builder (`NewSubsetLoadBalancerPreIndex`) under an arbitrary Go map iteration
-order `shuf`.  `inner` is any inner load balancer meeting the contract `InnerOK` (a chosen host is a healthy member;
+`lbPS grow shuf` the one of the pre-index builder (`NewSubsetLoadBalancerPreIndex`) under an arbitrary Go map iteration
+order `shuf` and an arbitrary capacity policy `grow` of `append` (the builder's combination prefix is a Go slice:
+backing array, len, cap — `Model/SubsetSlice.lean`; the statements extending it are the regenerated
+`Gen.SubsetSlice.comboExtend`).  `inner` is any inner load balancer meeting the contract `InnerOK` (a chosen host is a healthy member;
 some host is chosen when a healthy member exists — property C05); `rrChoose`, the round-robin balancer as written,
 is proved to meet it.  `d1`, `d2` are arbitrary states of the subset's and the fallback's inner balancers.
 -/
 namespace MosnVerif.Props.C15
-open MosnVerif MosnVerif.Model.Subset
+open MosnVerif MosnVerif.Model.Subset MosnVerif.Model.SubsetSlice
 
 /-- the regenerated policy constants are the values the declarative reference `specFallbackPool` is written with. -/
 theorem policy_constants :
@@ -23,17 +26,18 @@ theorem policy_constants :
 exactly when a configured selector has the criteria's key set and some host's metadata contains the criteria, and
 that entry's hosts are exactly `{h | metadata h ⊇ criteria}` (in host order); otherwise it yields nothing usable
 (no entry, or an entry without load balancer). -/
-theorem find_refines (hosts : List Host) (raw : List (List Key)) (dflt : Path)
+theorem find_refines (hosts : List Host) (raw : List (List Key)) (dflt : Path) (grow : Grow)
     (shuf : List Val → List Val) (hshuf : ∀ l v, v ∈ shuf l ↔ v ∈ l)
     (c : Path) (hs : strictSorted (c.map (·.1)) = true) :
     let sels := generateSubsetKeys raw
     let expected := if selectorExists raw c = true then hosts.filter (contains · c) else []
     (((findSubset (buildFilter hosts sels) c).bind Trie.lb).getD [] = expected ∧
      ((findSubset (buildFilter hosts sels) c).elim false entryActive = true ↔ expected ≠ [])) ∧
-    (((findSubset (buildPre (mkIndex hosts (mergeKeys sels dflt)) shuf hosts sels) c).bind Trie.lb).getD [] = expected ∧
-     ((findSubset (buildPre (mkIndex hosts (mergeKeys sels dflt)) shuf hosts sels) c).elim false entryActive = true
+    (((findSubset (buildPreS grow (mkIndex hosts (mergeKeys sels dflt)) shuf hosts sels) c).bind Trie.lb).getD [] = expected ∧
+     ((findSubset (buildPreS grow (mkIndex hosts (mergeKeys sels dflt)) shuf hosts sels) c).elim false entryActive = true
         ↔ expected ≠ [])) := by
   intro sels expected
+  rw [buildPreS_eq]
   have hF : activeHosts (buildFilter hosts sels) c = expected := by
     have := activeHosts_lbF hosts raw 0 dflt c
     rw [refHosts_sorted hosts raw c hs] at this
@@ -59,14 +63,16 @@ theorem find_refines (hosts : List Host) (raw : List (List Key)) (dflt : Path)
 /-- **find_refines_any_path**: without assuming sorted criteria — at *every* path `q` both tries hold the hosts
 `{h | metadata h ⊇ q}` when `q`'s key list is one of the normalised (sorted, deduplicated) selectors and nothing
 otherwise. -/
-theorem find_refines_any_path (hosts : List Host) (raw : List (List Key)) (dflt : Path)
+theorem find_refines_any_path (hosts : List Host) (raw : List (List Key)) (dflt : Path) (grow : Grow)
     (shuf : List Val → List Val) (hshuf : ∀ l v, v ∈ shuf l ↔ v ∈ l) (q : Path) :
     let sels := generateSubsetKeys raw
     activeHosts (buildFilter hosts sels) q =
         (if q ≠ [] ∧ q.map (·.1) ∈ sels then hosts.filter (contains · q) else []) ∧
-    activeHosts (buildPre (mkIndex hosts (mergeKeys sels dflt)) shuf hosts sels) q =
-        (if q ≠ [] ∧ q.map (·.1) ∈ sels then hosts.filter (contains · q) else []) :=
-  ⟨activeHosts_lbF hosts raw 0 dflt q, activeHosts_lbP shuf hshuf hosts raw 0 dflt q⟩
+    activeHosts (buildPreS grow (mkIndex hosts (mergeKeys sels dflt)) shuf hosts sels) q =
+        (if q ≠ [] ∧ q.map (·.1) ∈ sels then hosts.filter (contains · q) else []) := by
+  intro sels
+  rw [buildPreS_eq]
+  exact ⟨activeHosts_lbF hosts raw 0 dflt q, activeHosts_lbP shuf hshuf hosts raw 0 dflt q⟩
 
 /-- the normalised selectors are exactly the configured key *sets*: sorted, duplicate-free, each configured selector
 represented. -/
@@ -79,17 +85,37 @@ theorem selectors_normalised (raw : List (List Key)) (s : List Key) :
   · rintro ⟨r, hr, e, _⟩
     exact ⟨r, hr, e⟩
 
-/-- **builders_equiv**: for every host set, selector configuration, default subset, fallback policy and Go map
-iteration order, the two builders' tries are equal as maps from paths to active host lists (hence host sets), and the
-two balancers are observationally equal: same `ChooseHost` for every query and every inner-balancer state, same
-`HostNum`, same `IsExistsHosts`. -/
-theorem builders_equiv (hosts : List Host) (raw : List (List Key)) (policy : Nat) (dflt : Path)
+/-- **combinations_independent** (no aliasing between sibling combinations): with the statements the builder is written
+with (`Gen.SubsetSlice.comboExtend`, regenerated: a fresh allocation + copy before the append), the combinations
+`metadataCombinations` hands to `createSubsets` — slices, read after the whole product has been built — are exactly the
+declarative cartesian product of the indexed values, key by key, for EVERY selector length, EVERY capacity policy of
+`append`, every index and every map iteration order; in particular a path is among them iff it names the selector's keys
+in order with an indexed value each. -/
+theorem combinations_independent (grow : Grow) (ix : Index) (shuf : List Val → List Val) (keys : List Key) :
+    combosSl grow ix shuf keys =
+        (if keys = [] then [] else cartesian (keys.map (fun k => (k, shuf (vals ix k))))) ∧
+    ((∀ l v, v ∈ shuf l ↔ v ∈ l) → ∀ q, q ∈ combosSl grow ix shuf keys ↔
+        keys ≠ [] ∧ q.map (·.1) = keys ∧ ∀ kv ∈ q, kv.2 ∈ vals ix kv.1) := by
+  refine ⟨by rw [combosSl_eq, combos_cartesian], fun hshuf q => ?_⟩
+  rw [combosSl_eq, mem_combos ix shuf hshuf]
+
+/-- what makes it so: the regenerated extension only ever ADDS a backing array to the store (it never writes into an
+array that existed before) and hands on a slice denoting `prefix ++ [pair]`. -/
+theorem extension_is_fresh : FreshExt Gen.SubsetSlice.comboExtend Gen.SubsetSlice.comboResult := comboExtend_fresh
+
+/-- **builders_equiv**: for every host set, selector configuration, default subset, fallback policy, Go map
+iteration order and capacity policy of `append`, the two builders' tries are equal as maps from paths to active host
+lists (hence host sets), and the two balancers are observationally equal: same `ChooseHost` for every query and every
+inner-balancer state, same `HostNum`, same `IsExistsHosts`.  (Rests on `combinations_independent`, i.e. on the
+regenerated shape of the statement that extends the combination prefix.) -/
+theorem builders_equiv (hosts : List Host) (raw : List (List Key)) (policy : Nat) (dflt : Path) (grow : Grow)
     (shuf : List Val → List Val) (hshuf : ∀ l v, v ∈ shuf l ↔ v ∈ l) (inner : Inner) :
-    (∀ q, activeHosts (lbF hosts raw policy dflt).subsets q = activeHosts (lbP shuf hosts raw policy dflt).subsets q) ∧
+    (∀ q, activeHosts (lbF hosts raw policy dflt).subsets q = activeHosts (lbPS grow shuf hosts raw policy dflt).subsets q) ∧
     (∀ q d1 d2, chooseHost inner (lbF hosts raw policy dflt) q d1 d2 =
-        chooseHost inner (lbP shuf hosts raw policy dflt) q d1 d2) ∧
-    (∀ c, hostNum (lbF hosts raw policy dflt) c = hostNum (lbP shuf hosts raw policy dflt) c) ∧
-    (∀ c, isExists (lbF hosts raw policy dflt) c = isExists (lbP shuf hosts raw policy dflt) c) := by
+        chooseHost inner (lbPS grow shuf hosts raw policy dflt) q d1 d2) ∧
+    (∀ c, hostNum (lbF hosts raw policy dflt) c = hostNum (lbPS grow shuf hosts raw policy dflt) c) ∧
+    (∀ c, isExists (lbF hosts raw policy dflt) c = isExists (lbPS grow shuf hosts raw policy dflt) c) := by
+  rw [lbPS_eq]
   have hact : ∀ q, activeHosts (lbF hosts raw policy dflt).subsets q =
       activeHosts (lbP shuf hosts raw policy dflt).subsets q := fun q => by
     rw [activeHosts_lbF, activeHosts_lbP shuf hshuf]
@@ -246,9 +272,9 @@ theorem criteria_sorted (kvs : Path) (hnd : (kvs.map (·.1)).Nodup) :
 target, and `HostNum`/`IsExistsHosts` describe the reference pool — for the filtering builder and, by
 `builders_equiv`, for the pre-index builder. -/
 theorem request_exact (inner : Inner) (hin : InnerOK inner) (hosts : List Host) (raw : List (List Key))
-    (policy : Nat) (dflt : Path) (shuf : List Val → List Val) (hshuf : ∀ l v, v ∈ shuf l ↔ v ∈ l)
+    (policy : Nat) (dflt : Path) (grow : Grow) (shuf : List Val → List Val) (hshuf : ∀ l v, v ∈ shuf l ↔ v ∈ l)
     (kvs : Path) (hnd : (kvs.map (·.1)).Nodup) (d1 d2 : Nat) :
-    (∀ lb, (lb = lbF hosts raw policy dflt ∨ lb = lbP shuf hosts raw policy dflt) →
+    (∀ lb, (lb = lbF hosts raw policy dflt ∨ lb = lbPS grow shuf hosts raw policy dflt) →
       (∀ h, chooseHost inner lb (.crit (mkCriteria kvs)) d1 d2 = some h → h ∈ specTargets hosts raw policy dflt kvs) ∧
       (specTargets hosts raw policy dflt kvs ≠ [] → ∃ h, chooseHost inner lb (.crit (mkCriteria kvs)) d1 d2 = some h) ∧
       hostNum lb (some (mkCriteria kvs)) = ((specPool hosts raw policy dflt kvs).length : Int) ∧
@@ -259,7 +285,7 @@ theorem request_exact (inner : Inner) (hin : InnerOK inner) (hosts : List Host) 
   have hN := hostnum_exact hosts raw policy dflt (mkCriteria kvs) hs
   rw [specTargets_congr hosts raw policy dflt _ kvs hm] at hF
   rw [specPool_congr hosts raw policy dflt _ kvs hm] at hN
-  obtain ⟨_, hch, hnum, hex⟩ := builders_equiv hosts raw policy dflt shuf hshuf inner
+  obtain ⟨_, hch, hnum, hex⟩ := builders_equiv hosts raw policy dflt grow shuf hshuf inner
   intro lb hlb
   rcases hlb with rfl | rfl
   · exact ⟨hF.1, hF.2, hN.1, hN.2⟩
@@ -276,15 +302,15 @@ theorem round_robin_ok : InnerOK rrChoose := rrChoose_ok
 with the round-robin inner balancer, the set of hosts `ChooseHost` returns over all balancer states is exactly
 `specTargets`, for both builders; `HostNum`/`IsExistsHosts` are `specPool`'s size / non-emptiness. -/
 theorem spec_holds_on_model (hosts : List Host) (raw : List (List Key)) (policy : Nat) (dflt : Path)
-    (shuf : List Val → List Val) (hshuf : ∀ l v, v ∈ shuf l ↔ v ∈ l)
+    (grow : Grow) (shuf : List Val → List Val) (hshuf : ∀ l v, v ∈ shuf l ↔ v ∈ l)
     (c : Path) (hs : strictSorted (c.map (·.1)) = true) (h : Host) :
     ((∃ d1 d2, chooseHost rrChoose (lbF hosts raw policy dflt) (.crit c) d1 d2 = some h) ↔
         h ∈ specTargets hosts raw policy dflt c) ∧
-    ((∃ d1 d2, chooseHost rrChoose (lbP shuf hosts raw policy dflt) (.crit c) d1 d2 = some h) ↔
+    ((∃ d1 d2, chooseHost rrChoose (lbPS grow shuf hosts raw policy dflt) (.crit c) d1 d2 = some h) ↔
         h ∈ specTargets hosts raw policy dflt c) ∧
-    hostNum (lbP shuf hosts raw policy dflt) (some c) = ((specPool hosts raw policy dflt c).length : Int) ∧
-    isExists (lbP shuf hosts raw policy dflt) (some c) = decide ((specPool hosts raw policy dflt c).length > 0) := by
-  obtain ⟨_, hch, hnum, hex⟩ := builders_equiv hosts raw policy dflt shuf hshuf rrChoose
+    hostNum (lbPS grow shuf hosts raw policy dflt) (some c) = ((specPool hosts raw policy dflt c).length : Int) ∧
+    isExists (lbPS grow shuf hosts raw policy dflt) (some c) = decide ((specPool hosts raw policy dflt c).length > 0) := by
+  obtain ⟨_, hch, hnum, hex⟩ := builders_equiv hosts raw policy dflt grow shuf hshuf rrChoose
   have hF : (∃ d1 d2, chooseHost rrChoose (lbF hosts raw policy dflt) (.crit c) d1 d2 = some h) ↔
       h ∈ specTargets hosts raw policy dflt c := by
     constructor
@@ -358,6 +384,62 @@ example : selectorExists exRaw [("a", "2")] = true ∧
     hostNum (lbF exHosts exRaw 1 []) (some [("a", "2")]) = 1 ∧
     isExists (lbF exHosts exRaw 1 []) (some [("a", "2")]) = true := by decide
 
+/-! ### the combination prefix as a Go slice: non-vacuity, and the witness against a bare `append(kvs, pair)` -/
+
+/-- a selector with FOUR keys whose last key (in sorted order) has two values on one prefix -/
+def wideHosts : List Host :=
+  [ { name := "h0", md := [("a", "1"), ("b", "1"), ("c", "1"), ("d", "1")], healthy := true },
+    { name := "h1", md := [("a", "1"), ("b", "1"), ("c", "1"), ("d", "2")], healthy := true } ]
+
+def wideIx : Index := mkIndex wideHosts ["a", "b", "c", "d"]
+
+def wideD1 : Path := [("a", "1"), ("b", "1"), ("c", "1"), ("d", "1")]
+def wideD2 : Path := [("a", "1"), ("b", "1"), ("c", "1"), ("d", "2")]
+
+-- the regenerated extension is the three-statement fresh copy; under Go's doubling policy both combinations come out
+example : Gen.SubsetSlice.comboExtend =
+    [.make 1 (.len 0) (.add (.len 0) (.lit 1)), .copy 1 (.var 0), .appendPair 1 (.var 1)] ∧
+    Gen.SubsetSlice.comboResult = 1 := by decide
+example : combosSl goGrow wideIx id ["a", "b", "c", "d"] = [wideD1, wideD2] ∧
+    cartesian (["a", "b", "c", "d"].map (fun k => (k, vals wideIx k))) = [wideD1, wideD2] := by decide
+example : (activeHosts (lbPS goGrow id wideHosts [["d", "c", "b", "a"]] 1 []).subsets wideD1).map (·.name) = ["h0"] ∧
+    (activeHosts (lbPS exactGrow List.reverse wideHosts [["d", "c", "b", "a"]] 1 []).subsets wideD2).map (·.name) = ["h1"] := by
+  decide
+
+/-- the pre-index balancer as it would be with the bare extension `newkvs := append(kvs, pair)` -/
+def bareLB (grow : Grow) (policy : Int) (sels : List (List Key)) : LB :=
+  { full := wideHosts
+    fallback := fallbackOf policy wideHosts wideHosts
+    subsets := buildPreWith bareExtend 1 grow wideIx id wideHosts sels }
+
+/-- **a bare append loses combinations** (`decide`): under Go's doubling policy the prefix of length 3 has capacity 4,
+so the two sibling combinations of the 4-key selector share one backing array and both read `d=2` once the product is
+complete; the subset `d=1` is never built, a request for `d=1` — selector exists, `h0` matches — is sent to `h1`
+(any-endpoint), which does not carry `d=1`, or nowhere (no fallback), and the two builders differ.  The same shape is
+harmless for 3 and 5 keys and under a policy without spare capacity — which is why the capacity policy is a
+parameter. -/
+example :
+    combosWith bareExtend 1 goGrow wideIx id ["a", "b", "c", "d"] = [wideD2, wideD2] ∧
+    combosWith bareExtend 1 goGrow wideIx id ["a", "b", "c", "d"] ≠ combos wideIx id ["a", "b", "c", "d"] ∧
+    activeHosts (bareLB goGrow 1 [["a", "b", "c", "d"]]).subsets wideD1 = [] ∧
+    (activeHosts (lbF wideHosts [["a", "b", "c", "d"]] 1 []).subsets wideD1).map (·.name) = ["h0"] ∧
+    (chooseHost rrChoose (bareLB goGrow 1 [["a", "b", "c", "d"]]) (.crit wideD1) 0 0).map (·.name) = some "h1" ∧
+    chooseHost rrChoose (bareLB goGrow 0 [["a", "b", "c", "d"]]) (.crit wideD1) 0 0 = none ∧
+    (specTargets wideHosts [["a", "b", "c", "d"]] 1 [] wideD1).map (·.name) = ["h0"] ∧
+    hostNum (bareLB goGrow 1 [["a", "b", "c", "d"]]) (some wideD1) = 2 ∧
+    combosWith bareExtend 1 goGrow wideIx id ["a", "b", "d"] = combos wideIx id ["a", "b", "d"] ∧
+    combosWith bareExtend 1 goGrow wideIx id ["a", "b", "c", "a", "d"] = combos wideIx id ["a", "b", "c", "a", "d"] ∧
+    combosWith bareExtend 1 goGrow wideIx id ["a", "b", "c", "a", "b", "d"] ≠ combos wideIx id ["a", "b", "c", "a", "b", "d"] ∧
+    combosWith bareExtend 1 exactGrow wideIx id ["a", "b", "c", "d"] = combos wideIx id ["a", "b", "c", "d"] := by decide
+
+/-- the bare extension is not fresh: with spare capacity it writes into the array it received. -/
+example : ¬ FreshExt bareExtend 1 := by
+  intro h
+  obtain ⟨ext, h1, _, _⟩ := h goGrow ⟨0, 0, 1⟩ ("k", "v") [[zeroKV]] (Nat.zero_le _)
+  have h2 : (extendWith bareExtend 1 goGrow ⟨0, 0, 1⟩ ("k", "v") [[zeroKV]]).2 = [[("k", "v")]] := by decide
+  rw [h2] at h1
+  simp [zeroKV] at h1
+
 /-! ## The request path: criteria assembly per request, sequences of requests on one route
 
 Objects (see `Model/SubsetRequest.lean`): `rc : Option Meta` the `metadata_match` map the route (or its weighted
@@ -408,13 +490,13 @@ theorem criteria_assembled (rc : Option Meta) (hrc : ∀ r, rc = some r → (r.m
 /-- the proxy's host choice for criteria built from a map: `request_exact` behind the cluster manager's
 `HostNum == 0` gate (the gate never changes the outcome). -/
 theorem proxy_criteria_exact (inner : Inner) (hin : InnerOK inner) (hosts : List Host) (raw : List (List Key))
-    (policy : Nat) (dflt : Path) (shuf : List Val → List Val) (hshuf : ∀ l v, v ∈ shuf l ↔ v ∈ l)
+    (policy : Nat) (dflt : Path) (grow : Grow) (shuf : List Val → List Val) (hshuf : ∀ l v, v ∈ shuf l ↔ v ∈ l)
     (kvs : Path) (hnd : (kvs.map (·.1)).Nodup) (d1 d2 : Nat) :
-    ∀ lb, (lb = lbF hosts raw policy dflt ∨ lb = lbP shuf hosts raw policy dflt) →
+    ∀ lb, (lb = lbF hosts raw policy dflt ∨ lb = lbPS grow shuf hosts raw policy dflt) →
       (∀ h, proxyChoose inner lb (some (mkCriteria kvs)) d1 d2 = some h → h ∈ specTargets hosts raw policy dflt kvs) ∧
       (specTargets hosts raw policy dflt kvs ≠ [] → ∃ h, proxyChoose inner lb (some (mkCriteria kvs)) d1 d2 = some h) := by
   intro lb hlb
-  obtain ⟨ha, hb, hn, _⟩ := request_exact inner hin hosts raw policy dflt shuf hshuf kvs hnd d1 d2 lb hlb
+  obtain ⟨ha, hb, hn, _⟩ := request_exact inner hin hosts raw policy dflt grow shuf hshuf kvs hnd d1 d2 lb hlb
   unfold proxyChoose Gen.SubsetRequest.noHostWhen
   by_cases hz : hostNum lb (some (mkCriteria kvs)) = 0
   · have hp : specPool hosts raw policy dflt kvs = [] := by
@@ -428,17 +510,17 @@ theorem proxy_criteria_exact (inner : Inner) (hin : InnerOK inner) (hosts : List
 
 /-- the proxy's host choice for a request without any criteria: a healthy host of the cluster, whenever there is one. -/
 theorem proxy_no_criteria_exact (inner : Inner) (hin : InnerOK inner) (hosts : List Host) (raw : List (List Key))
-    (policy : Nat) (dflt : Path) (shuf : List Val → List Val) (hshuf : ∀ l v, v ∈ shuf l ↔ v ∈ l) (d1 d2 : Nat) :
-    ∀ lb, (lb = lbF hosts raw policy dflt ∨ lb = lbP shuf hosts raw policy dflt) →
+    (policy : Nat) (dflt : Path) (grow : Grow) (shuf : List Val → List Val) (hshuf : ∀ l v, v ∈ shuf l ↔ v ∈ l) (d1 d2 : Nat) :
+    ∀ lb, (lb = lbF hosts raw policy dflt ∨ lb = lbPS grow shuf hosts raw policy dflt) →
       (∀ h, proxyChoose inner lb none d1 d2 = some h → h ∈ hosts.filter (·.healthy)) ∧
       (hosts.filter (·.healthy) ≠ [] → ∃ h, proxyChoose inner lb none d1 d2 = some h) := by
   intro lb hlb
   obtain ⟨h1, h2, _⟩ := no_criteria inner hin hosts raw policy dflt d1 d2
-  obtain ⟨_, hch, _, _⟩ := builders_equiv hosts raw policy dflt shuf hshuf inner
+  obtain ⟨_, hch, _, _⟩ := builders_equiv hosts raw policy dflt grow shuf hshuf inner
   have hfull : lb.full = hosts := by
     rcases hlb with rfl | rfl
     · exact full_lbF hosts raw policy dflt
-    · exact full_lbP shuf hosts raw policy dflt
+    · rw [lbPS_eq]; exact full_lbP shuf hosts raw policy dflt
   have hchoose : chooseHost inner lb .nilCrit d1 d2 = chooseHost inner (lbF hosts raw policy dflt) .nilCrit d1 d2 := by
     rcases hlb with rfl | rfl
     · rfl
@@ -472,11 +554,11 @@ is sent — by either builder's balancer, behind the cluster manager's gate, wha
 a host among `requestTargets … rc (request k)`: the reference targets of exactly that request's pairs (its own and the
 route's for the keys it does not set), and it is sent somewhere whenever that set is non-empty. -/
 theorem request_path_exact (inner : Inner) (hin : InnerOK inner) (hosts : List Host) (raw : List (List Key))
-    (policy : Nat) (dflt : Path) (shuf : List Val → List Val) (hshuf : ∀ l v, v ∈ shuf l ↔ v ∈ l)
+    (policy : Nat) (dflt : Path) (grow : Grow) (shuf : List Val → List Val) (hshuf : ∀ l v, v ∈ shuf l ↔ v ∈ l)
     (rc : Option Meta) (hrc : ∀ r, rc = some r → (r.map (·.1)).Nodup)
     (reqs : List (Option Meta)) (hreqs : ∀ m, some m ∈ reqs → (m.map (·.1)).Nodup)
     (k : Nat) (hk : k < reqs.length) (d1 d2 : Nat) :
-    ∀ lb, (lb = lbF hosts raw policy dflt ∨ lb = lbP shuf hosts raw policy dflt) →
+    ∀ lb, (lb = lbF hosts raw policy dflt ∨ lb = lbPS grow shuf hosts raw policy dflt) →
       ∃ res, (runSeq (rc.map mkCriteria) reqs)[k]? = some res ∧ res.route = rc.map mkCriteria ∧
         (∀ h, proxyChoose inner lb res.used d1 d2 = some h → h ∈ requestTargets hosts raw policy dflt rc reqs[k]) ∧
         (requestTargets hosts raw policy dflt rc reqs[k] ≠ [] → ∃ h, proxyChoose inner lb res.used d1 d2 = some h) := by
@@ -489,12 +571,12 @@ theorem request_path_exact (inner : Inner) (hin : InnerOK inner) (hosts : List H
   | none =>
     rw [assemble_none]
     cases rc with
-    | none => exact proxy_no_criteria_exact inner hin hosts raw policy dflt shuf hshuf d1 d2 lb hlb
-    | some r => exact proxy_criteria_exact inner hin hosts raw policy dflt shuf hshuf r (hrc r rfl) d1 d2 lb hlb
+    | none => exact proxy_no_criteria_exact inner hin hosts raw policy dflt grow shuf hshuf d1 d2 lb hlb
+    | some r => exact proxy_criteria_exact inner hin hosts raw policy dflt grow shuf hshuf r (hrc r rfl) d1 d2 lb hlb
   | some m =>
     rw [assemble_some]
     obtain ⟨h1, h2⟩ := effList_spec rc m hrc (hreqs m hmem)
-    have := proxy_criteria_exact inner hin hosts raw policy dflt shuf hshuf _ h1 d1 d2 lb hlb
+    have := proxy_criteria_exact inner hin hosts raw policy dflt grow shuf hshuf _ h1 d1 d2 lb hlb
     rw [specTargets_congr hosts raw policy dflt _ _ h2] at this
     exact this
 
